@@ -225,7 +225,8 @@ impl Mesh {
 
             let k = (i + 1) % steps;
 
-            faces.push([(i * 2) as u32, (i * 2 + 1) as u32, (k * 2 + 1) as u32]);
+            // Both triangles of the quad are wound counter-clockwise seen from outside
+            faces.push([(i * 2) as u32, (k * 2 + 1) as u32, (i * 2 + 1) as u32]);
             faces.push([(i * 2) as u32, (k * 2) as u32, (k * 2 + 1) as u32]);
         }
 
